@@ -68,7 +68,12 @@ class Prop(PropBase):
             return x > 0, ax
         if dt.startswith("uint"):
             return np.abs(x).astype(dt), ax
-        return x.astype(dt), ax
+        y = x.astype(dt)
+        if case["seed"] % 3 == 1 and y.ndim > 1:
+            y = np.asfortranarray(y)                 # same values, column-major buffer
+        elif case["seed"] % 3 == 2:
+            y = np.repeat(y, 2, axis=0)[::2]          # same values through a strided view
+        return y, ax
 
     def run_code(self, case):
         pb, np = self.pb, self.np
